@@ -4,13 +4,20 @@ import framework
 
 
 def table_of(ctx):
-    """the command table of the tree under test, for the input generators; when the translator could not read one (the tie is then
-    reported as broken) the snapshot of the pinned tree keeps the generators running"""
-    t = (ctx.generated or {}).get("table", [])
+    """the command table the input generators draw from: the table of the tree under test, plus every definition of the frozen
+    table (the supported language) that the tree no longer has in that form — so that scripts valid in the supported language keep
+    being generated when a definition was edited.  When the translator could read no table at all, the frozen one alone."""
+    t = list((ctx.generated or {}).get("table", []))
+    fz = frozen_table()
     if not t:
-        with open(os.path.join(VERIF, "spec", "fallback_table.json")) as f:
-            t = json.load(f)["table"]
-    return t
+        return fz
+    return t + [d for d in fz if d not in t]
+
+
+def frozen_table():
+    """the command table of the supported language (spec/command_table.json): what the recogniser judges with"""
+    with open(os.path.join(VERIF, "spec", "command_table.json")) as f:
+        return json.load(f)["table"]
 
 
 def findings_for(pid):
